@@ -194,6 +194,19 @@ for _k, _v in ROUND10.items():
     TABLE[_k]['text'] += '; round 10: ' + _v
 
 
+SCHED_PARTS = {
+ 'C02': '; controlled thread scheduler for a handler that waits for an acknowledgement handled by another thread',
+ 'C03': '; controlled thread scheduler (context-bounded, statement-level yield points) for emits racing membership changes',
+ 'C06': '; controlled thread scheduler for concurrent emits with callbacks and duplicate acknowledgements',
+ 'C09': '; controlled thread scheduler for concurrent emits with callbacks and duplicate acknowledgements',
+ 'C11': '; controlled thread scheduler (context-bounded, statement-level yield points) for concurrent ends and for emit-with-callback racing a departure',
+ 'C12': '; controlled thread scheduler (statement-level yield points) for a busy offender racing bystanders and application emits',
+ 'C16': '; controlled thread scheduler for handler threads sharing a session',
+}
+for _k, _v in SCHED_PARTS.items():
+    TABLE[_k]['tech'] += _v
+
+
 def main():
     checks = []
     na = []
